@@ -23,6 +23,16 @@ class NDSet(builtins.set):
             i = eng.choose(len(items), "setorder") if len(items) > 1 else 0
             yield items.pop(i)
 
+    def pop(self):
+        items = sorted(builtins.set.__iter__(self), key=_key)
+        if not items:
+            raise KeyError("pop from an empty set")
+        i = 0
+        if MODE[0] != "canonical" and len(items) > 1:
+            i = sx.engine().choose(len(items), "setpop")
+        builtins.set.remove(self, items[i])
+        return items[i]
+
     # operations that build new sets keep the nondeterministic iteration order
     def union(self, *o):
         return NDSet(builtins.set.union(self, *o))
